@@ -207,7 +207,7 @@ theorem c11_split_partition (key : Node → Nat) (cutName : CutEdge → Name) (g
       exact hin _ t (Nat.le_refl _) (List.getElem?_eq_some_iff.1 h2).1 _ h3
 
 /-- key and cut-name functions for the examples -/
-def exKey (n : Node) : Nat := n.payload % 2
+def exKey (n : Node) : Nat := match n.payload with | .atom k => k % 2 | _ => 0
 def exCutName (c : CutEdge) : Name :=
   "__cut_".toList ++ c.sourceNode ++ "_".toList ++ c.destNode ++ "_".toList ++ c.destInput ++ "__".toList
 
